@@ -62,6 +62,9 @@ func init() {
 }
 
 func c18Run(c *Ctx) {
+	if c.Idx == 0 {
+		c18DeepNesting(c)
+	}
 	seeds := c18SmallSeeds()
 	idx := c.Idx
 	for _, b := range seeds {
